@@ -52,23 +52,30 @@ pub fn sigma() -> Vec<Op> {
         Op::AppendLine(s("/d/f"), s("x")),         // 25
         Op::WriteLines(s("/d/f"), vec![s("y")]),   // 26
         Op::EntriesSorted(s("/d")),                // 27
+        Op::Remove(s("/d")),                       // 28 (empty-directory check then unlink)
+        Op::Mkfile(s("/d/g")),                     // 29
+        Op::MoveP(s("/e"), s("/d/h")),             // 30
         // multi-step by contract: only (a) and (d) apply to programs containing these
-        Op::Chmod(s("/d"), 0o700),                 // 28
-        Op::Chown(s("/d"), 5, 6),                  // 29
-        Op::MkfileM(s("/d/f"), 0o600),             // 30
-        Op::WriteHandle(s("/d/f"), vec![b"h".to_vec(), b"i".to_vec()], vec![true, false]), // 31
-        Op::AppendHandle(s("/d/f"), vec![b"j".to_vec(), b"k".to_vec()], vec![true, false]), // 32
+        Op::Chmod(s("/d"), 0o700),                 // 31
+        Op::Chown(s("/d"), 5, 6),                  // 32
+        Op::MkfileM(s("/d/f"), 0o600),             // 33
+        Op::WriteHandle(s("/d/f"), vec![b"h".to_vec(), b"i".to_vec()], vec![true, false]), // 34
+        Op::AppendHandle(s("/d/f"), vec![b"j".to_vec(), b"k".to_vec()], vec![true, false]), // 35
     ]
 }
 
-const N_ATOMIC: usize = 28;
+const N_ATOMIC: usize = 31;
 
 fn multi_step(op: &Op) -> bool {
     matches!(op, Op::Chmod(..) | Op::ChmodB(..) | Op::Chown(..) | Op::ChownB(..) | Op::MkfileM(..) | Op::WriteHandle(..) | Op::AppendHandle(..))
 }
 
 pub fn inits() -> Vec<(&'static str, Vec<Op>)> {
-    vec![("empty", vec![]), ("/d/f=\"0\"", vec![Op::MkdirP(s("/d")), Op::WriteAll(s("/d/f"), b"0".to_vec())])]
+    vec![
+        ("empty", vec![]),
+        ("/d/f=\"0\"", vec![Op::MkdirP(s("/d")), Op::WriteAll(s("/d/f"), b"0".to_vec())]),
+        ("/d empty, /e=\"e\"", vec![Op::MkdirP(s("/d")), Op::WriteAll(s("/e"), b"e".to_vec())]),
+    ]
 }
 
 fn build_init(setup: &[Op]) -> Memfs {
@@ -339,8 +346,8 @@ struct Family {
 fn families(tier: Tier) -> Vec<Family> {
     let all: Vec<usize> = (0..sigma().len()).collect();
     let atomic: Vec<usize> = (0..N_ATOMIC).collect();
-    let core10: Vec<usize> = vec![0, 1, 2, 4, 5, 6, 7, 8, 9, 10];
-    let core6: Vec<usize> = vec![0, 2, 4, 7, 8, 12];
+    let core10: Vec<usize> = vec![0, 2, 4, 5, 6, 7, 8, 9, 10, 28];
+    let core6: Vec<usize> = vec![0, 2, 6, 7, 8, 28];
     let core5: Vec<usize> = vec![0, 2, 4, 8, 9];
     let core3: Vec<usize> = vec![0, 2, 8];
     let mut f = vec![
